@@ -256,7 +256,19 @@ func structure(r *rng.R, X, h0 *val.V) {
 	}
 	one := uint64(math.Float32bits(1))
 	for n := r.Range(1, 2); n > 0; n-- {
-		switch r.Intn(10) {
+		switch r.Intn(11) {
+		case 10: // consecutive frames that are nearly, but not bit for bit, equal (a slowly drifting signal)
+			a := r.Intn(seq)
+			for t := a + 1; t < seq && t < a+r.Range(2, 4); t++ {
+				for b := 0; b < batch; b++ {
+					copyRow(t, b, t-1, b)
+					for i := 0; i < in; i++ {
+						if r.Bool() {
+							*at(t, b, i) ^= uint64(1 + r.Intn(3)) // the last mantissa bits
+						}
+					}
+				}
+			}
 		case 0: // every batch row starts with the same frame
 			for b := 1; b < batch; b++ {
 				copyRow(0, b, 0, 0)
